@@ -275,6 +275,40 @@ class C03Episode(Episode):
                     self.probes['descendants_sigkilled'] += 1
             ep['judged'] = True
 
+    def collect(self):
+        try:
+            self.never_sent()
+        finally:
+            super().collect()
+
+    def never_sent(self):
+        w = self.world
+        if self.aborted in ('no_quiescence', 'cap_steps', 'cap_vtime') and \
+                w is not None and w.arbiter is not None and \
+                not w.daemon_gone():
+            # faults have stopped and half an hour of virtual time has
+            # passed: a stop that was accepted back then and whose workers
+            # are alive without ever having been sent a signal
+            k = w.kernel
+            for r in w.reqs:
+                if r.cmd != 'stop' or not r.accepted or r.wname is None or \
+                        r.disp_t is None or w.sim.now - r.disp_t < 600.0:
+                    continue
+                for i, wc in enumerate(self.cfg['watchers']):
+                    if wc['name'].lower() != r.wname.lower():
+                        continue
+                    idle = [p.pid for p in k.live_by_marker(self.marker(i))
+                            if p.term_first is None and
+                            p.spawn_time < r.disp_t]
+                    if idle:
+                        self.aborted = None
+                        self.viol('stop_signal_never_sent',
+                                  'stop of %s was accepted %.0f s ago; its '
+                                  'workers %s are alive and were never sent '
+                                  'any signal' % (wc['name'],
+                                                  w.sim.now - r.disp_t, idle),
+                                  once=('never', r.idx))
+
     def quiet_point(self):
         super().quiet_point()
         self.judge()
@@ -329,6 +363,13 @@ class C03(Prop):
         ops = gen.gen_history(rng, cfg, n, self.REQS, self.WEIGHTS,
                               death_p=0.15, fault_p=0.4,
                               second_req_kinds=['kill', 'stop', 'decr'])
+        for op in ops:
+            if op['op'] == 'req' and op['cmd'] == 'kill' and \
+                    rng.random() < 0.12:
+                # a signal number the designation rules accept and the
+                # kernel refuses: the request fails, the worker is untouched
+                # - and can be terminated like any other afterwards
+                op['props']['signum'] = rng.choice([100, 65, 1000])
         if kids:
             # children of the workers die too, also in the middle of a
             # round of signals
